@@ -21,4 +21,4 @@ with open(os.path.join(V, "seeded", "SUMMARY.md"), "w") as f:
         f.write("| %s | %s | %s | %s | %s | %s |\n" % r)
     n = len(rows); c = sum(1 for r in rows if r[3].startswith("CAUGHT"))
     f.write("\n%d of %d caught by the check of the property they break.\n" % (c, n))
-    f.write("\nNotes: two further sub-agents (a first-wave C04 agent, whose result is stored as C04-batch-id-block, and a second-wave C04 agent) arrived at the same Client.Batch id-block change as C18-batch-id-block (`git stash`, shared between the sub-agents' worktrees, leaked edits between them); the duplicate is not stored twice. Behaviour-preserving refactorings (no alarm expected, none raised) are under seeded/refactorings/.\n")
+    f.write("\nNotes: two further sub-agents (a first-wave C04 agent, whose result is stored as C04-batch-id-block, and a second-wave C04 agent) arrived at the same Client.Batch id-block change as C18-batch-id-block (`git stash`, shared between the sub-agents' worktrees, leaked edits between them); the duplicate is not stored twice; likewise a third-wave C09 agent repeated C09-callid-reset-on-start and a fourth-wave agent repeated the Close fast path of C05b/C05c (both re-checked: caught). Behaviour-preserving refactorings (no alarm expected, none raised) are under seeded/refactorings/.\n")
